@@ -211,7 +211,14 @@ impl Method for UpperReversalSignal {
 			Action::None
 		};
 
-		self.index = self.index.saturating_add(1);
+		// Positions are only ever compared with each other. Before the counter would run out of
+		// `PeriodType`'s range, re-base them on the oldest element of the window.
+		if self.index == PeriodType::MAX - 1 {
+			self.index -= first_index;
+			self.max_index -= first_index;
+		}
+
+		self.index += 1;
 		s
 	}
 }
@@ -345,7 +352,14 @@ impl Method for LowerReversalSignal {
 			Action::None
 		};
 
-		self.index = self.index.saturating_add(1);
+		// Positions are only ever compared with each other. Before the counter would run out of
+		// `PeriodType`'s range, re-base them on the oldest element of the window.
+		if self.index == PeriodType::MAX - 1 {
+			self.index -= first_index;
+			self.min_index -= first_index;
+		}
+
+		self.index += 1;
 		s
 	}
 }
